@@ -23,6 +23,35 @@ variable {V α : Type} [Sub α] [Add α] [LT α] [DecidableLT α] [DecidableEq V
 theorem routing_shared {I K : Type} (dI : I) (dK : K) (merge : K → K → K) (a : I) (kw : K) (fixed : K) (i : Nat) :
     chainArgs dI dK merge (.shared a) (.shared kw) fixed i = (a, merge kw fixed) := rfl
 
+/-! ### the keyword dictionary a chain is started with -/
+
+theorem kwLookup_merge {β : Type} (a b : Kw β) (k : String) :
+    kwLookup (kwMerge a b) k = (kwLookup b k).or (kwLookup a k) := by
+  unfold kwLookup kwMerge
+  rw [List.find?_append]
+  cases h : b.find? (fun e => e.1 == k) <;> simp
+
+/-- the keys the controller fixes (`proposals`, `overwrite_existing_file`, `queue`) carry the controller's
+    values whatever the user's kwargs say -/
+theorem fixed_keys_win {β : Type} (init : β) (kwargs fixed : Kw β) (k : String) (v : β) (h : kwLookup fixed k = some v) :
+    kwLookup (totalKwargs init kwargs fixed) k = some v := by
+  unfold totalKwargs
+  rw [kwLookup_merge, h]; rfl
+
+/-- every other key comes from the chain's own kwargs; `initial_model` from the kwargs if given there,
+    else from the initial model routed to this chain -/
+theorem other_keys_from_chain {β : Type} (init : β) (kwargs fixed : Kw β) (k : String) (h : kwLookup fixed k = none) :
+    kwLookup (totalKwargs init kwargs fixed) k = (kwLookup kwargs k).or (if k = "initial_model" then some init else none) := by
+  unfold totalKwargs
+  rw [kwLookup_merge, h, kwLookup_merge]
+  simp only [Option.none_or]
+  congr 1
+  unfold kwLookup
+  by_cases hk : k = "initial_model"
+  · subst hk; simp
+  · have : ("initial_model" == k) = false := by simpa using fun h' => hk h'.symm
+    simp [List.find?, this, hk]
+
 theorem routing_each {I K : Type} (dI : I) (dK : K) (merge : K → K → K) (as : List I) (kws : List K) (fixed : K) (i : Nat)
     (hi : i < as.length) (hk : i < kws.length) :
     chainArgs dI dK merge (.each as) (.each kws) fixed i = (as[i], merge kws[i] fixed) := by
